@@ -150,6 +150,46 @@ def header(maxname):
     return scenario
 
 
+def two_spas_one_shell(sx):
+    """one shell manages a second spa after the first (`manage 2`): the snapshot written then carries the second
+    spa's pack, firmware and versions"""
+    import geckolib.utils.shell as shell
+    from geckolib.utils.snapshot import GeckoSnapshot
+
+    def spa(i):
+        class Spa:
+            revision = "39.0"
+            intouch_version_en = f"{88 + i} v{15 + i}.{i}"
+            intouch_version_co = f"{89 + i} v{11 + i}.{i}"
+            pack = ["inXM", "inYJ"][i]
+            version = f"{186 + i} v{3 + i}.{i}"
+            config_number, config_version, log_version, pack_type = str(5 + i), [9, 62][i], [9, 59][i], [6, 10][i]
+
+            class struct:
+                status_block = bytes([i + 1]) * 1024
+        return Spa()
+    sh = shell.GeckoShell.__new__(shell.GeckoShell)
+    order = [0, 1] if sx.choice("order", 2) == 0 else [1, 0]
+    saved = shell.logger
+    try:
+        for i in order:
+            sh.facade = type("F", (), {"spa": spa(i)})()        # what do_manage does
+            rec = _Rec()
+            shell.logger = rec
+            sh.do_snapshot(f"spa {i}")
+            snap = GeckoSnapshot()
+            for ln in rec.lines:
+                snap.parse(PREFIX + ln)
+            sp = spa(i)
+            sx.check(snap.packtype == sp.pack and snap.config_version == sp.config_version
+                     and snap.log_version == sp.log_version, "hdr.second-spa.pack-and-versions",
+                     lambda: f"spa {i}: {snap.packtype} {snap._config_version}/{snap._log_version}")
+            sx.check(snap.intouch_EN == (88 + i, 15 + i, i) and snap.intouch_CO == (89 + i, 11 + i, i), "hdr.second-spa.firmware")
+            sx.check(snap.bytes == sp.struct.status_block, "hdr.second-spa.block")
+    finally:
+        shell.logger = saved
+
+
 def shell_fmt(fmt, *a):
     """the spa object's own "{0} v{1}.{2}".format(...) strings, on symbolic text"""
     from sx.core import SymBytesBase, Conc, Cat
@@ -246,6 +286,18 @@ def log_file_round_trip(sx):
                      lambda: f"{len(snaps)} snapshots, {len(snaps[0].bytes) if snaps else 0} bytes")
             if snaps:
                 sx.check(snaps[0].config_version == 61 and snaps[0].packtype == "inYT", "dat.log-file-header")
+        # the same path written again with another capture and parsed again in the same process
+        path = os.path.join(d, "log0.txt")
+        with open(path, "w") as f:
+            f.write(PREFIX + "Snapshot (second capture)\n")
+            for ln in ("intouch version EN 88 v15.0", "intouch version CO 89 v11.0", "Spa pack inXM 186 v3.0",
+                       "Config version 9", "Log version 9"):
+                f.write(PREFIX + ln + "\n")
+            f.write(PREFIX + str([hex(x) for x in blocks[1]]) + "\n")
+        snaps = GeckoSnapshot.parse_log_file(path)
+        sx.check(len(snaps) == 1 and snaps[0].name == "second capture" and snaps[0].bytes == blocks[1]
+                 and snaps[0].packtype == "inXM" and snaps[0].config_version == 9, "dat.log-file-parsed-afresh-every-time",
+                 lambda: f"{[s_.name for s_ in snaps]}")
         # one log holding several snapshots, taken straight after one another or with other log lines in between
         between = [[], ["2020-12-08 19:53:29,000 geckolib.driver.udp_socket DEBUG Sending ping"],
                    [PREFIX + "some other shell output"]]
@@ -345,6 +397,15 @@ def shipped_file(path):
                 sx.check(h.sequence == i and h.next == (0 if i == len(r) - 1 else i + 1), "file.chain-well-formed")
                 got += h.data
             sx.check(got == s.bytes, "file.block-served-unchanged")
+            # later, partial requests (what a client's refresh sends): the log window of the tables, and the block's tail
+            for (st_, ln_) in ((sim.log_class.begin, sim.log_class.end - sim.log_class.begin), (1000, 24), (39, 40)):
+                r = _serve(sim, GeckoStatusBlockProtocolHandler.request(4, st_, ln_, parms=P).send_bytes)
+                got = b""
+                for seg in r:
+                    h = GeckoStatusBlockProtocolHandler()
+                    h.handle(seg, P)
+                    got += h.data
+                sx.check(got[:ln_] == s.bytes[st_:st_ + ln_], "file.partial-range-served-unchanged", lambda: f"({st_},{ln_})")
     return scenario
 
 
@@ -354,6 +415,7 @@ def units(tier):
     for n in range(maxname + 1):
         yield Unit(f"header.name-len{n}", header(maxname), presets={"name_len": n}, max_paths=400000, max_depth=6000,
                    max_fanout=400)
+    yield Unit("two-spas-one-shell", two_spas_one_shell, validate=False)
     yield Unit("data-element", data_element, max_fanout=400)
     yield Unit("data-blocks", data_blocks, validate=False)
     yield Unit("traffic-log", traffic_log, validate=False)
